@@ -208,4 +208,37 @@ def run(ctx):
         run.instance(R7, {"fn": "OutputData::lock", "obligation": "sets status := Locked on every path (no precondition on the previous status)"}, held=h)
         if not h:
             run.finding(Finding(R7, odl.id, "OutputData::lock does not set the status to Locked", site=odl.loc()))
+    R8 = "C03.R8"
+    run.rule(R8, "a late-locked send is reserved once, during finalization: tx_lock_outputs reaches lock_tx_context only for a context that carries no pending late-lock arguments (the command line and Owner::init_send_tx(send_args) call it before every finalize_tx)", floor=1)
+    tlo = ctx.fn(c.LW + "api_impl::owner::tx_lock_outputs")
+    if tlo is None:
+        run.error("C03.R8: owner::tx_lock_outputs not found")
+    else:
+        CTXT = c.LW + "types::Context"
+        none_edges = set()
+        # (a) a discriminant test of Context.late_lock_args
+        for b, bb in enumerate(tlo.bbs):
+            for st in bb["s"]:
+                if st["k"] == "a" and st["r"]["k"] == "disc":
+                    q = st["r"]["p"]
+                    if q[1] and isinstance(q[1][-1], dict) and q[1][-1].get("a") == CTXT and q[1][-1].get("n") == "late_lock_args" and not st["d"][1]:
+                        t = bb["t"]
+                        if t["k"] == "sw" and vf.op_place(t["o"]) and vf.op_place(t["o"])[0] == st["d"][0]:
+                            some = {tb for v, tb in t["t"] if v == "1"}
+                            for s_ in tlo.succ(b):
+                                if s_ not in some:
+                                    none_edges.add((b, s_))
+        # (b) is_some() / is_none() on it
+        for b, t in tlo.calls():
+            fnm = t.get("f") or ""
+            if fnm.endswith(("Option::<T>::is_some", "Option::<T>::is_none")) and vf.has_field(vf.producers(tlo, t["a"][0]), CTXT, "late_lock_args"):
+                g_ = cfg.call_guard(tlo, b)
+                none_edges |= (g_.fail if fnm.endswith("is_some") else g_.ok)
+        sinks = {b for b, _t in cfg.find_calls(tlo, c.LW + "internal::selection::lock_tx_context")}
+        held = bool(none_edges) and bool(sinks) and cfg.must_pass(tlo, none_edges, sinks)[0]
+        if not sinks:
+            run.error("C03.R8: lock_tx_context call not found in tx_lock_outputs")
+        run.instance(R8, {"fn": "owner::tx_lock_outputs", "obligation": "lock_tx_context only on the edge `context.late_lock_args is None`", "guard edges": len(none_edges)}, held=held)
+        if not held:
+            run.finding(Finding(R8, tlo.id, "tx_lock_outputs reserves for a context whose late-lock arguments are still pending: the callers that lock before every finalize (command line send, init_send_tx with send_args) give a late-locked send a second reservation step (an input-less TxSent entry, then a second entry or a refused finalize)", site=tlo.loc()))
     run.not_decided += ["exclusivity as a statement about all interleaved histories (R1-R5 are the structural necessary conditions)", "finalize replay: covered by C02.R2 (context deleted => second finalize fails)"]
